@@ -293,7 +293,9 @@ def directed(rng, tier, idents):
                                                                "exports": [{"name": "deeptrap", "kind": "func", "idx": 0}, {"name": "triple", "kind": "func", "idx": 1},
                                                                            {"name": "count", "kind": "func", "idx": 2}]}, "script": sc})
     # (d) import names: distinct imports must stay distinct; identifiers come from Mangle.tla
-    pairs = [("env", "f"), ("env", "f_g"), ("env", "f__g"), ("a_", "b"), ("a", "_b"), ("m0", "Xx"), ("m0", "x$y"), ("m_0", "x.y-z")]
+    pairs = [("env", "f"), ("env", "f_g"), ("env", "f__g"), ("a_", "b"), ("a", "_b"), ("m0", "Xx"), ("m0", "x$y"), ("m_0", "x.y-z"),
+             # runs of three, four and five underscores inside a name (every underscore that follows one is doubled)
+             ("env", "f___g"), ("env", "f____g"), ("q", "h_____i"), ("r___s", "t")]
     imports = []
     for k, (mo, na) in enumerate(pairs):
         imports.append({"mod": mo, "name": na, "kind": "func", "type": 0, "ret": b32(50 + k), "logname": "%s.%s" % (mo, na),
@@ -303,8 +305,11 @@ def directed(rng, tier, idents):
     for im in imports:
         im["name_for_model"] = im["logname"]
     items.append({"id": "names", "module": {"types": [{"p": [], "r": ["i32"]}], "imports": imports, "funcs": funcs,
-                                             "exports": [{"name": "c%d" % k, "kind": "func", "idx": len(pairs) + k} for k in range(len(pairs))]},
-                  "script": [inst()] + [{"op": "call", "inst": 1, "export": "c%d" % k, "args": []} for k in range(len(pairs))]})
+                                             "exports": [{"name": "c%d" % k, "kind": "func", "idx": len(pairs) + k} for k in range(len(pairs))] +
+                                                        # ... and in export names
+                                                        [{"name": n_, "kind": "func", "idx": len(pairs) + k_} for k_, n_ in enumerate(("ns___value", "ns____v", "_____", "x___"))]},
+                  "script": [inst()] + [{"op": "call", "inst": 1, "export": "c%d" % k, "args": []} for k in range(len(pairs))] +
+                            [{"op": "call", "inst": 1, "export": n_, "args": []} for n_ in ("ns___value", "ns____v", "_____", "x___")]})
     return items
 
 
@@ -335,7 +340,8 @@ def main():
             rep["otherexample"] = rep["otherexample"] or rep3["otherexample"]
             rep["pairs"] += rep3["pairs"]
         # 2. identifiers of the names used below, from the specification
-        names = [("env", "f"), ("env", "f_g"), ("env", "f__g"), ("a_", "b"), ("a", "_b"), ("m0", "Xx"), ("m0", "x$y"), ("m_0", "x.y-z")]
+        names = [("env", "f"), ("env", "f_g"), ("env", "f__g"), ("a_", "b"), ("a", "_b"), ("m0", "Xx"), ("m0", "x$y"), ("m_0", "x.y-z"),
+                 ("env", "f___g"), ("env", "f____g"), ("q", "h_____i"), ("r___s", "t")]
         inf, idf = os.path.join(wd, "req.ndjson"), os.path.join(wd, "idents.ndjson")
         write_ndjson(inf, [{"mod": list(mo.encode()), "name": list(na.encode())} for mo, na in names])
         mi = tlc_ok(tlc("Mangle", cfg="MangleIdent.cfg", env={"INFILE": inf, "OUTFILE": idf}, timeout=300), "MangleIdent")
